@@ -37,7 +37,13 @@ type EP struct {
 	Rates      map[string]int `json:"rates,omitempty"` // kind -> per-mille probability at each eligible op
 	DataEOF    bool           `json:"data_eof,omitempty"`
 	WriteYield bool           `json:"write_yield,omitempty"`
-	Capacity   int            `json:"capacity,omitempty"` // bytes the outgoing queue accepts before Write blocks; 0 = unbounded
+	// WriteLate: a Write that was accepted returns late: only once the peer has answered something and closed and
+	// this side's reader has taken all of it (or after 300 ms of simulated time). The bytes were delivered at once;
+	// when the call returns is the transport's business
+	WriteLate bool `json:"write_late,omitempty"`
+	// WriteLateAlways: also while the harness says "quiet" (no injected faults): lateness is not a fault
+	WriteLateAlways bool `json:"write_late_always,omitempty"`
+	Capacity        int  `json:"capacity,omitempty"` // bytes the outgoing queue accepts before Write blocks; 0 = unbounded
 }
 
 type half struct {
@@ -314,6 +320,16 @@ func (c *Conn) Write(p []byte) (int, error) {
 		return 0, timeoutErr{"write"}
 	}
 	c.wr.buf = append(c.wr.buf, p...)
+	if c.EP.WriteLate && (c.Quiet == nil || !c.Quiet() || c.EP.WriteLateAlways) {
+		dl := time.Now().Add(300 * time.Millisecond)
+		c.S.Deadline(dl)
+		c.S.WaitUntil("write-returns-late", func() bool {
+			return c.rd.wclosed && len(c.rd.buf) == 0 || c.local || !time.Now().Before(dl)
+		})
+		for i := 0; i < 3; i++ {
+			c.S.YieldNow("write-returns-late")
+		}
+	}
 	return len(p), nil
 }
 
